@@ -32,6 +32,7 @@ type runResp struct {
 	Nodes    string   `json:"nodes,omitempty"`
 	Problems []string `json:"problems,omitempty"`
 	NodeErr  string   `json:"node_err,omitempty"`
+	Ms       int64    `json:"ms"` // wall time of the run in the child
 }
 
 func init() {
@@ -112,8 +113,9 @@ func childRun(args []string) int {
 		if json.Unmarshal(line, &rq) != nil {
 			continue
 		}
+		t0 := time.Now()
 		r := runSourceFresh(rq.Src)
-		rs := runResp{ID: rq.ID, Out: r.Out, Status: r.Status, Detail: r.Detail}
+		rs := runResp{ID: rq.ID, Out: r.Out, Status: r.Status, Detail: r.Detail, Ms: time.Since(t0).Milliseconds()}
 		if rq.Nodes {
 			rs.Nodes, rs.Problems, rs.NodeErr = DumpNodes(penv.Parser, rq.Src, rq.Tag)
 		}
